@@ -119,3 +119,32 @@ Proof.
         apply Qc_eq_bool_correct. vm_compute. reflexivity.
   - rewrite Hq, Hm. intro E. apply (f_equal (fun x : Qc => Qnum (this x))) in E. vm_compute in E. discriminate.
 Qed.
+
+(* ---------------------------------------------------------------- refutation witness (finding
+   "joint-gaussian-rounded-8-decimals"): one node x ~ N(0; 10^-9).  As coded (rnd = numpy's round(8), Run.rnd8)
+   the reported variance is 0, so the reported covariance is not positive definite although the variance of the
+   CPD is positive; without rounding it is 10^-9. *)
+Definition tiny_cpds : list (@cpd QcF) := [ mkCpd (K:=QcF) 0 [qq 0 1] (qq 1 1000000000) [] ].
+
+Lemma joint_rounding_refuted :
+  exists (cpds : list (@cpd QcF)) (vars : list nat) mu Sg mu' Sg',
+    to_joint_gaussian QcF rnd8 cpds vars = Some (mu, Sg) /\
+    to_joint_gaussian QcF (fun x => x) cpds vars = Some (mu', Sg') /\
+    (forall c, In c cpds -> Qclt (qq 0 1) (cvariance c)) /\
+    mget Sg 0 0 = qq 0 1 /\ mget Sg' 0 0 = qq 1 1000000000 /\ mget Sg 0 0 <> mget Sg' 0 0.
+Proof.
+  destruct (to_joint_gaussian QcF rnd8 tiny_cpds [0]) as [[mu Sg]|] eqn:E1.
+  2:{ exfalso. assert (H : match to_joint_gaussian QcF rnd8 tiny_cpds [0] with Some _ => true | None => false end = true)
+        by (vm_compute; reflexivity). rewrite E1 in H. discriminate. }
+  destruct (to_joint_gaussian QcF (fun x => x) tiny_cpds [0]) as [[mu' Sg']|] eqn:E2.
+  2:{ exfalso. assert (H : match to_joint_gaussian QcF (fun x => x) tiny_cpds [0] with Some _ => true | None => false end = true)
+        by (vm_compute; reflexivity). rewrite E2 in H. discriminate. }
+  assert (H1 : match to_joint_gaussian QcF rnd8 tiny_cpds [0] with
+               | Some (_, S0) => Qc_eq_bool (mget S0 0 0) (qq 0 1) | None => false end = true) by (vm_compute; reflexivity).
+  assert (H2 : match to_joint_gaussian QcF (fun x => x) tiny_cpds [0] with
+               | Some (_, S0) => Qc_eq_bool (mget S0 0 0) (qq 1 1000000000) | None => false end = true) by (vm_compute; reflexivity).
+  rewrite E1 in H1. rewrite E2 in H2. apply Qc_eq_bool_correct in H1. apply Qc_eq_bool_correct in H2.
+  exists tiny_cpds, [0], mu, Sg, mu', Sg'. repeat split; try assumption.
+  - intros c [<-|[]]. reflexivity.
+  - rewrite H1, H2. intro E. apply (f_equal (fun x : Qc => Qnum (this x))) in E. vm_compute in E. discriminate.
+Qed.
